@@ -23,7 +23,7 @@ ASSUMPTIONS = [
     "audited order-insensitive sites are listed in rules/C12.py:ORDER_INSENSITIVE with one reason each",
 ]
 TECHNIQUE = 'CFG must-pass-through (reset), class-wide write/reset effect analysis, taint of symbol-table aliases, ' \
-            'set-iteration lint with audited exemptions'
+            'set-iteration lint with audited exemptions; no instance state through locals in compile()'
 
 GENERATORS = (('pysmi/codegen/symtable.py', 'SymtableCodeGen'), ('pysmi/codegen/intermediate.py', 'IntermediateCodeGen'),
               ('pysmi/codegen/jsondoc.py', 'JsonCodeGen'), ('pysmi/codegen/pysnmp.py', 'PySnmpCodeGen'))
